@@ -7,6 +7,7 @@ import (
 	"net/http"
 	"strconv"
 	"strings"
+	"unicode/utf8"
 
 	"github.com/formancehq/stack/libs/go-libs/pointer"
 
@@ -376,6 +377,11 @@ func deleteTransactionMetadata(w http.ResponseWriter, r *http.Request) {
 	}
 
 	metadataKey := chi.URLParam(r, "key")
+	// a path segment is percent-decoded bytes: what is not text cannot be written to the log and read back
+	if !utf8.ValidString(metadataKey) {
+		sharedapi.BadRequest(w, ErrValidation, errors.New("invalid metadata key"))
+		return
+	}
 
 	if err := l.DeleteMetadata(r.Context(), getCommandParameters(r), ledger.MetaTargetTypeTransaction, transactionID, metadataKey); err != nil {
 		switch {
